@@ -125,6 +125,36 @@ func newWorld(group, kind string, n, t int, rng *vh.Rng) (*world, error) {
 	return w, nil
 }
 
+// newSynthWorld builds a large-but-legal committee without running a DKG: both
+// distributed keys are sharings built directly from random polynomials
+// (share.NewPriPoly + its commitments), exactly what a DKG hands out.
+func newSynthWorld(group string, n, t int, rng *vh.Rng) (*world, error) {
+	w := &world{group: group, kind: "synthetic/synthetic", n: n, t: t}
+	switch group {
+	case "dlog":
+		w.dl = vh.NewDlogGroup(vh.Q61, &rngStream{rng.Fork()})
+		w.suite = w.dl
+	case "ed25519":
+		w.suite = edwards25519.NewBlakeSHA256Ed25519WithRand(&rngStream{rng.Fork()})
+	}
+	w.name = fmt.Sprintf("%s/%s/n=%d/t=%d", group, w.kind, n, t)
+	for i := 0; i < n; i++ {
+		s := w.suite.Scalar().Pick(w.suite.RandomStream())
+		w.secs = append(w.secs, s)
+		w.pubs = append(w.pubs, w.suite.Point().Mul(s, nil))
+	}
+	pick := func() kyber.Scalar { return w.suite.Scalar().Pick(w.suite.RandomStream()) }
+	w.long = synthSharing(w.suite, pick(), t, n)
+	w.rnd = synthSharing(w.suite, pick(), t, n)
+	w.rndOther = synthSharing(w.suite, pick(), t, n)
+	w.msg = rng.Bytes(rng.Intn(40))
+	w.otherMsg = append(append([]byte{}, w.msg...), 0x21)
+	if err := w.finish(); err != nil {
+		return nil, err
+	}
+	return w, nil
+}
+
 // finish computes, from all shares, the signature the property demands:
 // R || r + H(R||A||m)*a
 func (w *world) finish() error {
@@ -497,8 +527,11 @@ func (w *world) digest() string {
 		fmt.Fprintf(h, "%s|%s|", w.secs[i].String(), w.pubs[i].String())
 	}
 	for _, ks := range [][]dss.DistKeyShare{w.long, w.rnd, w.rndOther} {
-		for _, k := range ks {
+		for i, k := range ks {
 			fmt.Fprintf(h, "%d:%s|", k.PriShare().I, k.PriShare().V.String())
+			if w.n > 10 && i%16 != 0 {
+				continue // big committees: the commitment lists of every 16th share only (cost)
+			}
 			for _, p := range k.Commitments() {
 				fmt.Fprintf(h, "%s,", p.String())
 			}
@@ -1025,6 +1058,81 @@ func (g *gen) resharings(w *world, rng *vh.Rng, real bool) {
 	g.epochs(w, w2, rng)
 }
 
+// large committees: first-t, last-t and random t-subsets of signers; in
+// committees with more than 64 participants the partials of the signers 63, 64,
+// 65 and n-1 are replayed (second delivery must be refused, nothing counted)
+func (g *gen) large(w *world, rng *vh.Rng) {
+	n, t := w.n, w.t
+	g.rep.Dist(fmt.Sprintf("large-committee:%s:n=%d,t=%d", w.group, n, t))
+	all := seq(n)
+	subs := map[string][]int{"first-t": all[:t], "last-t": all[n-t:], "random-t": shuffled(rng, all)[:t]}
+	for _, name := range []string{"first-t", "last-t", "random-t"} {
+		sg := subs[name]
+		order := sg
+		if rng.Bool() {
+			order = shuffled(rng, sg)
+		}
+		c := sg[rng.Intn(len(sg))]
+		if name == "random-t" {
+			c = rng.Intn(n) // possibly a pure combiner
+		}
+		h := w.history(c, order, rng, 1+rng.Intn(2), false)
+		g.one(w, c, h, map[string]interface{}{"signers": name, "large": true})
+	}
+	if n > 64 {
+		hot := []int{63, 64, 65, n - 1}
+		// (a) only the four signers around the word boundary, each delivered many times: never enough
+		{
+			c := 0
+			var h []hop
+			for round := 0; round < 10; round++ {
+				for _, j := range hot {
+					cl := "honest"
+					if round > 0 {
+						cl = "same-object-again"
+						if round%2 == 0 {
+							cl = "honest-again"
+						}
+					}
+					ps := w.shared(j, nil)
+					if cl == "same-object-again" {
+						if w.cache[j] == nil {
+							w.cache[j] = ps
+						}
+						ps = w.cache[j]
+					}
+					h = append(h, hop{ps: ps, class: cl, from: j})
+				}
+			}
+			g.one(w, c, h, map[string]interface{}{"scenario": "replay-of-signers-63-64-65-last", "large": true})
+		}
+		// (b) a t-subset containing them, every one of their partials replayed right after its first delivery
+		{
+			var sg []int
+			sg = append(sg, hot...)
+			for _, j := range shuffled(rng, all) {
+				if len(sg) < t && !contains(hot, j) {
+					sg = append(sg, j)
+				}
+			}
+			c := hot[rng.Intn(len(hot))]
+			var h []hop
+			for _, j := range shuffled(rng, sg) {
+				if j == c {
+					h = append(h, hop{sign: true, class: "own", from: c}, hop{ps: w.honest(c), class: "echo-own", from: c})
+					continue
+				}
+				ps := w.honest(j)
+				h = append(h, hop{ps: ps, class: "honest", from: j})
+				if contains(hot, j) || rng.Intn(4) == 0 {
+					h = append(h, hop{ps: ps, class: "same-object-again", from: j})
+				}
+			}
+			g.one(w, c, h, map[string]interface{}{"scenario": "t-subset-with-replays-around-index-64", "large": true})
+		}
+	}
+}
+
 func seq(n int) []int {
 	o := make([]int, n)
 	for i := range o {
@@ -1085,6 +1193,11 @@ func main() {
 			g.world(w, rng, false, 1)
 			g.resharings(w, rng, rng.Bool())
 		}
+		for _, x := range [][3]interface{}{{"dlog", 30, 21}, {"dlog", 70, 36}, {"ed25519", 40, 21}, {"ed25519", 66, 34}} {
+			if w, err := newSynthWorld(x[0].(string), x[1].(int), x[2].(int), rng.Fork()); err == nil {
+				g.large(w, rng)
+			}
+		}
 		rep.Write(o.Out)
 		return
 	}
@@ -1118,6 +1231,23 @@ func main() {
 				g.resharings(w, rng, ki%2 == 0)
 			}
 		}
+	}
+	// large-but-legal committees (no DKG run: sharings built from polynomials)
+	lg := [][3]interface{}{{"dlog", 24, 17}, {"dlog", 70, 36}, {"ed25519", 30, 21}}
+	if o.Seed%2 == 0 {
+		lg = [][3]interface{}{{"dlog", 40, 21}, {"dlog", 66, 20}, {"ed25519", 24, 17}}
+	}
+	if o.Thorough {
+		lg = [][3]interface{}{{"dlog", 24, 17}, {"dlog", 30, 21}, {"dlog", 40, 21}, {"dlog", 64, 33}, {"dlog", 70, 36}, {"dlog", 66, 20},
+			{"ed25519", 30, 21}, {"ed25519", 70, 36}, {"ed25519", 64, 33}}
+	}
+	for _, x := range lg {
+		w, err := newSynthWorld(x[0].(string), x[1].(int), x[2].(int), rng.Fork())
+		if err != nil {
+			rep.Fail("keys/synthetic-sharing-failed", err.Error(), map[string]interface{}{"n": x[1], "t": x[2]})
+			continue
+		}
+		g.large(w, rng)
 	}
 	if w := mk("p256", kinds[ki%4], 3, 2); w != nil {
 		g.world(w, rng, true, 1)
